@@ -604,6 +604,47 @@ theorem foldRowsC_refused_first {cap tx t i0 : Nat} {upd : List (Nat × Val)} {r
     rw [this] at h
     cases h
 
+/-! ### a row step only touches the index entries of its own row -/
+
+theorem btMoves_other_ids {cap other : Nat} {upd : List (Nat × Val)} {vals : List Val} {i : Nat} (x : Entry)
+    (hx : x.2.2 ≠ i) :
+    ∀ (cs : List Nat) (es : List Entry), x ∈ (btMoves cap other upd vals i cs es).1 ↔ x ∈ es := by
+  have hne : ∀ (c : Nat) (v : Val), x ≠ (c, v, i) := fun c v e => hx (by rw [e])
+  intro cs
+  induction cs with
+  | nil => intro es; rw [btMoves]
+  | cons c cs ih =>
+    intro es
+    cases hu : updGet upd c with
+    | none => rw [btMoves_cons_none hu]; exact ih es
+    | some n =>
+      have hrem : x ∈ idxRemove (c, val vals c, i) es ↔ x ∈ es :=
+        ⟨fun h => (mem_idxRemove.mp h).1, fun h => mem_idxRemove.mpr ⟨h, hne _ _⟩⟩
+      cases hb : btAddC cap other (c, n, i) (idxRemove (c, val vals c, i) es) with
+      | none => rw [btMoves_cons_refused hu hb]; exact hrem
+      | some es' =>
+        rw [btMoves_cons_ok hu hb, ih es', btAddC_some hb, mem_idxAdd]
+        constructor
+        · rintro (h | h)
+          · exact absurd h (hne _ _)
+          · exact hrem.mp h
+        · intro h; exact Or.inr (hrem.mpr h)
+
+theorem hashMoves_other_ids {upd : List (Nat × Val)} {vals : List Val} {i : Nat} (x : Entry) (hx : x.2.2 ≠ i)
+    (on : List Nat) (es : List Entry) : x ∈ hashMoves upd vals i on es ↔ x ∈ es := by
+  have hne : ∀ (c : Nat) (v : Val), x ≠ (c, v, i) := fun c v e => hx (by rw [e])
+  unfold hashMoves
+  apply fold_untouched
+  intro c _ es'
+  split
+  · rw [mem_idxAdd, mem_idxRemove]
+    constructor
+    · rintro (h | ⟨h, _⟩)
+      · exact absurd h (hne _ _)
+      · exact h
+    · intro h; exact Or.inr ⟨h, hne _ _⟩
+  · exact Iff.rfl
+
 /-! ### state-level plumbing -/
 
 theorem otherKeys_congr {s s' : State} {t : Nat} (hn : s'.ntables = s.ntables)
